@@ -1,10 +1,184 @@
 import Model.Common.Proto
-open Btc
+import Model.C20.Lifecycle
+import Generated.Lifecycle
+open Btc Btc.C20
 
-/-- line protocol of property C20: see harness/c20.py -/
+/-!
+Line protocol of property C20 (see harness/c20.py).  One line = one whole history on a fresh
+object; the answer lists, per step, what the call returned and the observable state after it.
+
+  nonce  <nonce-hex> <op>;…        op = P | S,ctx(1|v|r),rOdd,b,e,a,g,gacc,prv,pk-hex,inSet,sid  (sid: harness only)
+  signer <dsa|ssa> <delegated> <op>;…   op = S1 | S0 | W | E | X | F0 | F1 (backend flips: no-ops here)
+  soft   <op>;…                    op = C | <method>:<argsOk>
+  wallet <b,b,…> <b:i=tok,…> <op>;…   tok `!` = the subclass refuses the position, `~` = no address
+                                   op = A:b:i | N:b | P:tok:last | I:tok | C:tok | L | K:tok
+  memo   <maxsize> <op>;…          op = c<x> | clr      (f x = (x² + 7) mod 1009, key = x)
+-/
+
+def b01 (s : String) : Option Bool := if s == "1" then some true else if s == "0" then some false else none
+def bit (b : Bool) : String := if b then "1" else "0"
+def ops (s : String) : List String := if s == "_" then [] else s.splitOn ";"
+
+/-! nonce -/
+def parseNonceOp (s : String) : Option NonceOp :=
+  match s.splitOn "," with
+  | ["P"] => some .peek
+  | ["S", c, r, b, e, a, g, gacc, prv, pk, ins, _sid] => do
+    let (c, ce) ← (match c with
+      | "1" => some (true, Err.value) | "v" => some (false, Err.value) | "r" => some (false, Err.runtime)
+      | _ => none)
+    let r ← b01 r
+    let b ← parseInt? b; let e ← parseInt? e; let a ← parseInt? a; let g ← parseInt? g
+    let gacc ← parseInt? gacc; let prv ← parseInt? prv; let pk ← fromHex? pk; let ins ← b01 ins
+    pure (.sign ⟨c, ce, r, b, e, a, g, gacc, prv, pk, ins⟩)
+  | _ => none
+
+def renderNonceOut : NonceOut → String
+  | .sig s => "sig:" ++ toHex s
+  | .err e => "err:" ++ e.name
+  | .bytes b => "bytes:" ++ toHex b
+
+def nonceTrace : List NonceOp → Bytes → List String
+  | [], _ => []
+  | op :: rest, n =>
+    let (n', o) := Nonce.step op n
+    (renderNonceOut o ++ "@" ++ toHex n') :: nonceTrace rest n'
+
+/-! signer -/
+def parseSignerOp (s : String) : Option (Option SignerOp) :=
+  match s with
+  | "S1" => some (some (.sign true)) | "S0" => some (some (.sign false))
+  | "W" => some (some .wipe) | "E" => some (some .enter) | "X" => some (some .exit)
+  | "F0" => some none | "F1" => some none
+  | _ => none
+
+def renderSignerOut : SignerOut → String
+  | .sig => "sig" | .none_ => "none" | .self_ => "self" | .err e => "err:" ++ e.name
+
+def renderSigner (s : Signer) : String := s!"w{bit s.wiped}k{bit s.keyObj}s{bit s.scalar}"
+
+def signerTrace (c : SignerCode) : List (Option SignerOp) → Signer → List String
+  | [], _ => []
+  | none :: rest, s => ("none@" ++ renderSigner s) :: signerTrace c rest s
+  | some op :: rest, s =>
+    let (s', o) := Signer.step c op s
+    (renderSignerOut o ++ "@" ++ renderSigner s') :: signerTrace c rest s'
+
+/-! software signer -/
+def parseSoftOp (s : String) : Option SoftOp :=
+  match s.splitOn ":" with
+  | ["C"] => some .close
+  | [m, ok] => (b01 ok).map (SoftOp.call m)
+  | _ => none
+
+def renderSoftOut : SoftOut → String
+  | .answer => "answer" | .none_ => "none" | .err e => "err:" ++ e.name
+
+def softTrace : List SoftOp → SoftSigner → List String
+  | [], _ => []
+  | op :: rest, s =>
+    let (s', o) := SoftSigner.step op s
+    (renderSoftOut o ++ "@c" ++ bit s'.closed) :: softTrace rest s'
+
+/-! wallet -/
+def parseTable (s : String) : Option (List ((Int × Nat) × String)) :=
+  (if s == "_" then [] else s.splitOn ",").mapM fun e =>
+    match e.splitOn "=" with
+    | [p, tok] => match p.splitOn ":" with
+      | [b, i] => do
+        let b ← parseInt? b
+        let i ← i.toNat?
+        pure ((b, i), tok)
+      | _ => none
+    | _ => none
+
+def tableSource (branches : List Int) (t : List ((Int × Nat) × String)) : Source String :=
+  { branches := branches
+    addr := fun b i => match t.lookup (b, i) with
+      | some "!" => none
+      | some tok => some tok
+      | none => none
+    isEmpty := fun a => a == "~" }
+
+def parseWalletOp (s : String) : Option (WalletOp String) :=
+  match s.splitOn ":" with
+  | ["A", b, i] => do pure (.address (← parseInt? b) (← parseInt? i))
+  | ["N", b] => do pure (.next (← parseInt? b))
+  | ["P", tok, last] => do pure (.positionOf tok (← last.toNat?))
+  | ["I", tok] => some (.info tok)
+  | ["C", tok] => some (.contains tok)
+  | ["L"] => some .len
+  | ["K", tok] => some (.add tok)
+  | _ => none
+
+def renderOptInt : Option Int → String
+  | some i => toString i
+  | none => "-"
+def renderInfo (i : Info) : String := renderOptInt i.branch ++ "." ++ renderOptInt i.index
+
+def renderWalletOut : WalletOut String → String
+  | .addr a => "addr:" ++ a
+  | .err e => "err:" ++ e.name
+  | .pos (some (b, i)) => s!"pos:{b}.{i}"
+  | .pos none => "pos:none"
+  | .info i => "info:" ++ renderInfo i
+  | .bool v => "bool:" ++ bit v
+  | .nat n => s!"nat:{n}"
+
+def renderWallet (branches : List Int) (w : Wallet String) : String :=
+  ",".intercalate (w.ledger.map fun p => p.1 ++ "/" ++ renderInfo p.2) ++ "#" ++
+  ",".intercalate (branches.map fun b => s!"{b}={w.next b}")
+
+def walletTrace (src : Source String) : List (WalletOp String) → Wallet String → List String
+  | [], _ => []
+  | op :: rest, w =>
+    let (w', o) := Wallet.step src op w
+    (renderWalletOut o ++ "@" ++ renderWallet src.branches w') :: walletTrace src rest w'
+
+/-! memo: the LRU instance against functools.lru_cache -/
+def memoF (x : Int) : Int := (x * x + 7) % 1009
+
+def memoTrace (maxsize : Nat) : List String → Lru Int Int → Option (List String)
+  | [], _ => some []
+  | "clr" :: rest, _ => do
+    let r ← memoTrace maxsize rest ⟨[], 0, 0⟩
+    pure ("none@h0m0s0" :: r)
+  | op :: rest, s =>
+    match op.toList with
+    | 'c' :: ds => do
+      let x ← parseInt? (String.ofList ds)
+      let (s', v) := Lru.call memoF id maxsize x s
+      let r ← memoTrace maxsize rest s'
+      pure (s!"{v}@h{s'.hits}m{s'.misses}s{s'.cache.length}" :: r)
+    | _ => none
+
+def out (r : Option (List String)) : String :=
+  match r with
+  | some l => "ok " ++ (if l.isEmpty then "_" else ";".intercalate l)
+  | none => "bad-op"
+
 def handle : List String → String
-  -- one line per generated module this driver serves, e.g.
-  -- | "gen" :: "VarInt" :: fn :: args => (Gen.VarInt.dispatch fn args).getD "bad-op"
+  | "gen" :: "Lifecycle" :: fn :: args => (Gen.Lifecycle.dispatch fn args).getD "bad-op"
+  | ["nonce", hex, os] => out do
+    let n ← fromHex? hex
+    let l ← (ops os).mapM parseNonceOp
+    pure (nonceTrace l n)
+  | ["signer", kind, del, os] => out do
+    let c ← if kind == "dsa" then some dsaCode else if kind == "ssa" then some ssaCode else none
+    let d ← b01 del
+    let l ← (ops os).mapM parseSignerOp
+    pure (signerTrace c l (Signer.init c d))
+  | ["soft", os] => out do
+    let l ← (ops os).mapM parseSoftOp
+    pure (softTrace l SoftSigner.init)
+  | ["wallet", bs, table, os] => out do
+    let branches ← (bs.splitOn ",").mapM parseInt?
+    let t ← parseTable table
+    let l ← (ops os).mapM parseWalletOp
+    pure (walletTrace (tableSource branches t) l Wallet.empty)
+  | ["memo", m, os] => out do
+    let maxsize ← m.toNat?
+    memoTrace maxsize (ops os) ⟨[], 0, 0⟩
   | _ => "bad-op"
 
 def main : IO Unit := runLoop handle
